@@ -117,7 +117,8 @@ class Consumer(Agent):
     def done(self):
         if self.expect is not None:
             return len(self.got) >= self.expect
-        return self.now - self.last_activity >= self.quiet
+        # quiet = no handshake anywhere in the bench (accept or delivery) for `quiet` cycles
+        return self.bench.cycle[self.bench.domains[0]] - self.bench.last_event >= self.quiet
 
     def step(self, v, t, w):
         ep = self.ep
